@@ -904,6 +904,20 @@ class SymStr(str):
             rest = z3.SubString(rest, i + len(sep), z3.Length(rest) - i - len(sep))
             n += 1
 
+    def count(self, sub, *a):
+        """number of non-overlapping occurrences of a concrete substring, as a symbolic integer (the length of
+        the string is forked, then the count is a sum over positions: exact for 1-2 character needles)"""
+        if a or not isinstance(sub, str) or isinstance(sub, SymStr) or not (1 <= len(sub) <= 2):
+            raise Inconclusive("count() with this needle is not modelled")
+        n = len(self)
+        terms = []
+        for i in range(n - len(sub) + 1):
+            hit = z3.SubString(self.e, z3.IntVal(i), z3.IntVal(len(sub))) == z3.StringVal(sub)
+            if len(sub) == 2 and sub[0] == sub[1] and i > 0:
+                raise Inconclusive("overlapping needle")
+            terms.append(z3.If(hit, z3.RealVal(1), z3.RealVal(0)))
+        return SymNum(z3.Sum(*terms) if len(terms) > 1 else (terms[0] if terms else z3.RealVal(0)), 'i')
+
     def _no(self, *a, **k):
         raise Inconclusive("unsupported str method on a symbolic string")
     strip = lstrip = rstrip = rsplit = replace = join = encode = find = index = title = capitalize = _no
